@@ -40,6 +40,7 @@ type RunResult struct {
 	TxFail      int            `json:"tx_fail"`
 	Trace       string         `json:"trace"`
 	RaceOther   int            `json:"race_other,omitempty"`
+	Enumerated  string         `json:"enumerated,omitempty"`
 }
 
 const maxStepsPerHeight = 12
